@@ -29,7 +29,7 @@ def gen_case(r, kind):
     c["temp"] = r.choice([300.0, 150.0, 600.0, 1000.0, 75.5])
     c["tol"] = r.choice([0.5, 0.25, 0.125, 0.375, 1.0])
     c["dt"] = r.choice([0.5, 1.0, 2.0])
-    c["tsf"] = r.choice([1, 1, 2, 3, 4]) if kind != "frozen" else r.choice([1, 2, 4])
+    c["tsf"] = r.choice([1, 1, 2, 3, 4, 5, 6, 7, 12]) if kind != "frozen" else r.choice([1, 2, 4, 3, 6])
     bigdt = c["dt"] * c["tsf"]
     c["tau"] = bigdt * r.choice([8.0, 16.0, 32.0, 12.5, 100.0])
     c["damping"] = 0.0
@@ -43,7 +43,10 @@ def gen_case(r, kind):
     c["running"] = 0 if kind == "norun" else 1
     c["outvel"] = 1 if r.random() < 0.3 else 0
     c["outen"] = 1 if r.random() < 0.3 else 0
-    nsteps = r.randint(10, 28)
+    nsteps = max(r.randint(10, 28), 6 * c["tsf"] + r.randint(0, 6))
+    if kind not in ("drift", "realbias", "badconfig") and r.random() < 0.4:
+        # the job does not start at step 0: small offsets (not multiples of the factor) and step numbers beyond int / unsigned / double-exact ranges
+        c["start_step"] = r.choice([1, 2, 3, 5, 7, 11, 2 ** 31 - 2, 2 ** 31 + 1, 2 ** 32 - 3, 2 ** 32 + 5, 2 ** 53 - 1, 2 ** 53 + 7, 2 ** 62 - 200])
     if kind == "badconfig":
         # one input check of init_extended_Lagrangian fails (or, one time in five, none does)
         which = r.choice(["temp", "tol", "tau", "damping", "none"])
@@ -127,7 +130,7 @@ def gen_case(r, kind):
         # the engine declares a new initial step in the middle of the session: the number of steps since the last update no longer
         # equals the factor and update_extended_Lagrangian() raises its factor error (the update is skipped, the bias force stays on the atoms)
         jj = r.randint(3, len(ev) - 2)
-        if not ev[jj]["boundary"] and awake_steps(c)[jj - 1][1] >= 2:
+        if not ev[jj]["boundary"] and awake_steps(c)[jj - 1][1] - c.get("start_step", 0) >= 2:
             # (at least two steps done: the new relative step 1 can be taken neither for a repetition nor for the successor of the last update)
             c["setstep_at"] = (jj, r.choice([0, 100, 1000]))
     return c
@@ -250,7 +253,7 @@ def fill_real_forces(c, recs, table):
 def awake_steps(c):
     """(engine step index, absolute step) for the steps on which the variable is awake"""
     out = []
-    it = 0
+    it = c.get("start_step", 0)                           # the engine's first step (set_initial_step before the first calc)
     ss = c.get("setstep_at")
     for j, e in enumerate(c["events"]):
         if ss and j == ss[0]:
@@ -264,7 +267,7 @@ def awake_steps(c):
 def step_origin(c, j):
     """absolute step of relative step 0 at engine step j (changes when the engine declares a new initial step)"""
     ss = c.get("setstep_at")
-    return ss[1] if (ss and j >= ss[0]) else 0
+    return ss[1] if (ss and j >= ss[0]) else c.get("start_step", 0)
 
 
 def scenario(c, tag):
@@ -307,6 +310,8 @@ def scenario(c, tag):
         o.append("xstep")
         return o
     K = c.get("resume_at")
+    if c.get("start_step"):
+        L.append("setstep %d" % c["start_step"])
     for j, e in enumerate(c["events"]):
         if K is not None and j == K:
             break
@@ -366,7 +371,12 @@ def model_line(c, restart=None):
         st = it - (restart[1] if restart is not None else step_origin(c, j))
         xj = e["x"] + (c.get("restart_shift", 0.0) if (restart is not None and j == restart[0]) else 0.0)
         ins.append("%d %s %s %s %s %d" % (st, hx(xj), hx(tsf * e["fb"]), hx(tsf * e["fba"]), hx(rnd), e["running"]))
-    rs = "0 0x0p+0 0x0p+0 0x0p+0 0" if restart is None else "1 %s %s %s %d" % (hx(restart[2]), hx(restart[3]), hx(restart[4] if len(restart) > 4 else 0.0), restart[1])
+    if restart is None:
+        rs = "0 0x0p+0 0x0p+0 0x0p+0 %d" % step_origin(c, 0)
+    elif restart[2] is None:
+        rs = "2 0x0p+0 0x0p+0 %s %d" % (hx(restart[4] if len(restart) > 4 else 0.0), restart[1])      # state without extended values
+    else:
+        rs = "1 %s %s %s %d" % (hx(restart[2]), hx(restart[3]), hx(restart[4] if len(restart) > 4 else 0.0), restart[1])
     return "%s %s %s %s %s %s %d %s %s %d %d %s %d %s %s %d %d %s %d %s" % (
         hx(KB), hx(c["temp"]), hx(c["tol"]), hx(c["tau"]), hx(c["damping"]), hx(c["dt"]), c["tsf"],
         hx(c["lower"]), hx(c["upper"]), c["rlo"], c["rup"], hx(c["width"]), c["per"], hx(c["P"]), hx(c["ctr"]),
@@ -520,7 +530,7 @@ def oracles(run, c, recs, scn, first_event=0, resumed=False):
             if not (x == clamp(c, e["x"]) and v == 0.0):
                 run.violation("init:start", "the first step starts from (%r,%r), not from the clamped value %r of the variable and zero velocity" % (x, v, clamp(c, e["x"])), rep)
                 return
-        if c.get("setstep_at") and j == c["setstep_at"][0] and prev is not None and prev[2] >= 2:
+        if c.get("setstep_at") and j == c["setstep_at"][0] and prev is not None and prev[2] - c.get("start_step", 0) >= 2:
             # (after earlier repetitions of step 0 or 1 the new relative step 1 is a legitimate successor: no error then)
             # factor guard: relative step it - origin, last update at relative step prev: error iff their difference is neither 0 nor the factor
             run.dist("steps-raising-the-factor-error")
@@ -911,7 +921,7 @@ def add_resume(r, c):
         last = [j for j in range(K) if aw[j][2]]
         nxt_ = [j for j in range(K, len(ev)) if aw[j][2]]
         if not last:
-            return False
+            return True                                    # the state is written before the variable's first update
         return (not nxt_) or abs(pdiff(c, ev[nxt_[0]]["x"] - ev[last[-1]]["x"])) <= 0.49 * c["width"]
     cand = [K for K in range(1, len(ev)) if (aw[K - 1][2] or (r.random() < 0.7 and sleeping_ok(K)))]
     nxt = [K for K in cand if ev[K]["boundary"]]
@@ -922,7 +932,7 @@ def add_resume(r, c):
     c["resume_at"] = r.choice(cand)
     m = r.random()
     it_k = aw[c["resume_at"] - 1][1]
-    if m > 0.7 and it_k >= 1:
+    if m > 0.7 and it_k - c.get("start_step", 0) >= 1 and it_k < 2 ** 31:
         c["auto_state"] = it_k                             # colvarsRestartFrequency: the state written from within calc() at that step
         return
     if m < 0.15:
@@ -1020,6 +1030,8 @@ def check(run):
         recs = compare(run, c if c.get("resume_at") is None else dict(c, resume_at=None), tag, scn, impl, ml, mout[i] if i < len(mout) else "")
         run.dist("kind:" + c["kind"])
         run.dist("tsf=%d" % c["tsf"])
+        if c.get("start_step"):
+            run.dist("first step of the job: %s" % ("< 2^31" if c["start_step"] < 2 ** 31 else ("< 2^53" if c["start_step"] < 2 ** 53 else ">= 2^53")))
         if recs is None or any(x is None for x in recs):
             run.count(tag, False)
             continue
@@ -1073,7 +1085,7 @@ def check(run):
             cs["events"][K - 1]["x"] += c["restart_shift"]
             cs.pop("restart_shift")
         rcases.append(cs)
-        rlines.append(model_line(cs, restart=(K - 1, aw[K - 1][1], sx if sx is not None else 0.0, sv if sv is not None else 0.0, xs if xs is not None else 0.0)))
+        rlines.append(model_line(cs, restart=(K - 1, aw[K - 1][1], sx if (sx is not None and sv is not None) else None, sv, xs if xs is not None else 0.0)))
     rc, rmout, e = V.run_lines(model, rlines) if rlines else (0, [], "")
     for n_, (i, tag) in enumerate(rjobs):
         c = cases[i]
@@ -1096,10 +1108,14 @@ def check(run):
             continue
         sx, sv, xs = rinfo[n_]
         ms = MSTEPS.get("c%d" % i)
-        if sx is None or sv is None or xs is None:
-            run.mismatch("state:extended-missing", {"scenario": scn}, "no x/extended_x/extended_v in the saved state", "present")
+        m_none = bool(ms is not None and len(ms) >= K and math.isnan(ms[K - 1]["saved_x"]))
+        if xs is None or ((sx is None) != (sv is None)) or ((sx is None) != m_none and ms is not None):
+            run.mismatch("state:extended-missing", {"scenario": scn}, "x/extended_x/extended_v in the saved state: %r/%r/%r" % (xs, sx, sv),
+                         "extended values %s" % ("absent (coordinate not yet set)" if m_none else "present"))
             continue
-        if ms is not None and len(ms) >= K:
+        if sx is None:
+            run.dist("resumed: state written before the variable's first update (no extended values)")
+        elif ms is not None and len(ms) >= K:
             if not (close(sx, ms[K - 1]["saved_x"], 1e-12) and close(sv, ms[K - 1]["saved_v"], 1e-12)):
                 run.mismatch("state:saved_xv", {"scenario": scn, "model_case": jobs[i][3], "engine_step": K - 1}, (sx, sv), (ms[K - 1]["saved_x"], ms[K - 1]["saved_v"]))
         if c.get("reload"):
